@@ -749,8 +749,8 @@ func init() {
 			}
 			if tier == "thorough" {
 				js = append(js, hj("C17.resume-mid", "H_C17_resume_mid", "3 chunks, 2 workers, 9 steps"),
-					hj("C17.plain-deep", "H_C17_plain_deep", "4 chunks, 3 workers, 10 steps"),
-					hj("C17.resume-deep", "H_C17_resume_deep", "4 chunks, 3 workers, 11 steps"))
+					hj("C17.plain-deep", "H_C17_plain_deep", "4 chunks, 3 workers, 10 steps"))
+				// H_C17_resume_deep (4 chunks, 3 workers, 11 steps with report/verdict arrival) does not finish within 15 minutes on 16 cores: not registered
 			}
 			for _, j := range js {
 				j.Workers = 8
